@@ -213,6 +213,6 @@ static void wn_observer (void) {
 	for (i = 0; i < 2; i++) nsync_counter_free (ctrs[i]);
 	mc_assert (cv.waiters == NULL, "a waiter record is still on the condition variable after all calls returned");
 }
-MC_ORACLE static void wn_final (void) { h_outcome_results (); }
+MC_ORACLE static void wn_final (void) { h_mu_idle (&mu); h_outcome_results (); }
 extern const struct mc_family fam_waitn;
 const struct mc_family fam_waitn = { "waitn", wn_setup, wn_init, wn_thread, wn_observer, wn_final };
